@@ -42,6 +42,14 @@ def opts_random(rng):
     t = rng.choice([None, 0.0, 0.3, 1.0, 5.0, -1.0])
     if t is not None:
         o["thr"] = t
+    if rng.random() < 0.3:
+        # the initial index width must not exceed the limit (the producer panics at construction otherwise)
+        lim = {"": 16, "none": 0, "8": 8, "16": 16, "32": 32, "64": 64}[o["dict"]]
+        ok = [w for w in ("8", "16", "32", "64") if int(w) <= lim]
+        if ok:
+            o["init"] = rng.choice(ok)
+    if rng.random() < 0.3:
+        o["stats"] = rng.choice(["ratio", "producer", "ratio,producer"])
     return o
 
 # ------------------------------------------------------------------ running
